@@ -33,6 +33,8 @@ func AddPaddingToBytes
   requires n <= 1099511627776
   ensures (len(b) / 8 >= n || len(b) >= n) ==> result == b
   ensures (len(b) / 8 < n && len(b) < n) ==> len(result) == n && fresh(result)
+  // the padding goes in front: the input is the tail of the result
+  ensures C13/padding-keeps-the-bytes: (len(b) / 8 < n && len(b) < n) ==> bytes(result[n - len(b):]) == bytes(b)
 
 func Uint64AsPaddedBytes
   props C12 C13
@@ -40,4 +42,6 @@ func Uint64AsPaddedBytes
   ensures n <= 8 ==> len(result) == 8
   ensures n >= 8 ==> len(result) == n
   ensures fresh(result)
+  // whatever the padding, the last eight bytes are the big-endian number
+  ensures C13/number-in-the-last-eight-bytes: bytes(result[len(result) - 8:]) == be64(i)
 @*/
